@@ -2,6 +2,7 @@ package harness
 
 import (
 	"errors"
+	"github.com/failsafe-go/failsafe-go/retrypolicy"
 	"reflect"
 	"time"
 )
@@ -177,6 +178,11 @@ func sameErr(a, b error) bool {
 	ta, tb := reflect.TypeOf(a), reflect.TypeOf(b)
 	if ta != tb {
 		return false
+	}
+	if ea, ok := a.(retrypolicy.ExceededError); ok {
+		// the carried result is compared like every result: by value
+		eb := b.(retrypolicy.ExceededError)
+		return reflect.DeepEqual(ea.LastResult, eb.LastResult) && sameErr(ea.LastError, eb.LastError)
 	}
 	if ta.Comparable() {
 		return a == b
